@@ -71,7 +71,14 @@ pub fn lex_number(source: &[char]) -> Option<FoundToken> {
         return None;
     }
 
-    let end = source
+    // A number ends, at the latest, at the first character no float literal can contain;
+    // what follows (later sentences, other paragraphs) must not influence how it is lexed.
+    let limit = source
+        .iter()
+        .position(|c| !(c.is_ascii_digit() || matches!(c, '.' | 'e' | 'E' | '+' | '-')))
+        .unwrap_or(source.len());
+
+    let end = source[..limit]
         .iter()
         .enumerate()
         .rev()
